@@ -710,7 +710,13 @@ func (ex *Exec) applyContract(st *State, c *Contract, fn *types.Func, recv *Val,
 	// object invariants of the callee's receiver must hold at the call (visible-state semantics)
 	if scCaller == nil && ex.discovery == 0 && recv != nil && !c.Unshared {
 		if sig, ok := fn.Type().(*types.Signature); ok && sig.Recv() != nil {
-			if n := namedOf(sig.Recv().Type()); n != nil {
+			n := namedOf(sig.Recv().Type())
+			if n != nil && len(ex.eng.cs.ObjInvs[typeKey(n)]) > 0 && ex.fn != nil && ex.fn.Pkg != nil && fn.Pkg() != nil && ex.fn.Pkg.Types != fn.Pkg() {
+				// a caller in another package cannot have touched the (unexported) representation
+				ex.assumption("object invariants of " + typeKey(n) + " hold whenever code of another package calls its methods (visible-state semantics; the invariants mention unexported fields only)")
+				n = nil
+			}
+			if n != nil {
 				for _, oi := range ex.eng.cs.ObjInvs[typeKey(n)] {
 					if oi.Expr == nil {
 						continue
@@ -931,7 +937,56 @@ func (ex *Exec) callOrd(ref string, pos token.Pos) int {
 // havocSpecLval havocs one item of a modifies clause.
 var allGhostRe = regexp.MustCompile(`^all\((\w+)\)$`)
 
+// fieldKeys resolves a modifies item `field(pkg.Type, Path.To.Field)` -- that field of every
+// object of the type -- to its heap keys (one per leaf).
+var fieldItemRe = regexp.MustCompile(`^field\(([^,]+),\s*([\w.]+)\)$`)
+
+func (ex *Exec) fieldKeys(item string, sc *SpecCtx) ([]string, []*Shape, bool) {
+	m := fieldItemRe.FindStringSubmatch(item)
+	if m == nil {
+		return nil, nil, false
+	}
+	te, err := parseSpecExpr(strings.TrimSpace(m[1]))
+	if err != nil {
+		ex.specErr("bad type in modifies item %q", item)
+		return nil, nil, true
+	}
+	t := ex.resolveType(te, sc)
+	if t == nil {
+		ex.specErr("unknown type in modifies item %q", item)
+		return nil, nil, true
+	}
+	sh := ex.eng.sh.shapeOf(t)
+	for _, comp := range strings.Split(m[2], ".") {
+		var next *Shape
+		for i, n := range sh.Names {
+			if n == comp {
+				next = sh.Kids[i]
+			}
+		}
+		if next == nil {
+			ex.specErr("no field %s in modifies item %q", comp, item)
+			return nil, nil, true
+		}
+		sh = next
+	}
+	var keys []string
+	var leaves []*Shape
+	sh.leafPaths(m[2], func(p string, leaf *Shape) {
+		keys = append(keys, heapKey(heapTypeKey(t), p))
+		leaves = append(leaves, leaf)
+	})
+	return keys, leaves, true
+}
+
 func (ex *Exec) havocSpecLval(st *State, item string, sc *SpecCtx) {
+	if keys, leaves, ok := ex.fieldKeys(item, sc); ok {
+		for i, key := range keys {
+			_ = ex.heapArr(st, key, leaves[i].Leaf)
+			ex.havocHeapKey(st, key, ex.eng.heapSortOf(key))
+		}
+		return
+	}
 	if m := allGhostRe.FindStringSubmatch(item); m != nil {
 		// the whole ghost function (every index)
 		if g, ok := ex.eng.cs.Ghosts[m[1]]; ok {
@@ -1207,6 +1262,19 @@ func (ex *Exec) specForm(st *State, name string, call *ast.CallExpr, sc *SpecCtx
 		t := ex.resolveType(call.Args[1], sc)
 		if t != nil && v.Sh != nil && v.Sh.IsLeaf() && v.Sh.Leaf == "Int" && name == "asPtr" {
 			if _, isPtr := t.Underlying().(*types.Pointer); isPtr {
+				isRef := false
+				if b, isB := v.T.Underlying().(*types.Basic); isB && b.Kind() == types.UnsafePointer {
+					isRef = true
+				}
+				if pt, isP := v.T.Underlying().(*types.Pointer); isP {
+					if st0, isS := pt.Elem().Underlying().(*types.Struct); isS && st0.NumFields() == 0 {
+						isRef = true
+					}
+				}
+				if isRef {
+					// a ghost of result type `ref`: an object reference viewed at the given pointer type
+					return one(&Val{Sh: ex.eng.sh.shapeOf(t), T: t, S: v.S})
+				}
 				if _, isIface := v.T.Underlying().(*types.Interface); isIface {
 					// a non-empty interface value is its object reference; the dynamic type is not tracked
 					ex.assumption("asPtr on a " + types.TypeString(v.T, nil) + " value: its dynamic type is assumed to be " + types.TypeString(t, nil))
